@@ -5,7 +5,8 @@ CONSTANTS
   HEADERFULL = TRUE
   CHECKLEN = FALSE
   WRAP = 12
-  FailKinds = {"none", "eof", "err"}
+  EOFOK = TRUE
+  FailKinds = {"none", "eof", "err", "eofd"}
 INVARIANTS C10_NeverSpins C10_NothingBehindBadLength C02_PacketsInOrder C14_OnlyCompletePackets C02_NoErrorFromPartition C14_CompleteBeforeError
 PROPERTIES C14_ErrorEventually
 CHECK_DEADLOCK FALSE
